@@ -158,7 +158,7 @@ fn place_king_safely(t: &mut Tape, p: &mut Pos, white: bool, avoid: &[Sq]) -> bo
 
 /// finish a constructed position: clocks, optional mirror, validation
 fn finish(t: &mut Tape, mut p: Pos, src: &'static str) -> Option<GenPos> {
-    const CLOCKS: [u32; 10] = [0, 0, 0, 1, 5, 49, 50, 98, 99, 100];
+    const CLOCKS: [u32; 14] = [0, 0, 0, 1, 3, 5, 49, 50, 97, 98, 99, 100, 101, 150];
     p.halfmove = CLOCKS[t.pick(CLOCKS.len())];
     if p.ep.is_some() {
         p.halfmove = 0;
@@ -434,6 +434,7 @@ fn theme_castle(t: &mut Tape) -> Option<GenPos> {
         p.board[0] = Some(Pc::new(true, Kind::R));
     }
     // black: sometimes also at home
+    let mut file_keep: Vec<Sq> = vec![];
     if t.pick(2) == 0 {
         p.board[60] = Some(Pc::new(false, Kind::K));
         if t.pick(2) == 0 {
@@ -442,10 +443,17 @@ fn theme_castle(t: &mut Tape) -> Option<GenPos> {
         if t.pick(2) == 0 {
             p.board[56] = Some(Pc::new(false, Kind::R));
         }
+    } else if t.pick(2) == 0 {
+        // enemy king on the d- or f-file: castling may give check with the rook
+        let f = if t.pick(2) == 0 { 3 } else { 5 };
+        let r = 2 + t.pick(6) as i32;
+        p.board[sq(f, r) as usize] = Some(Pc::new(false, Kind::K));
+        file_keep.extend((1..r).map(|rr| sq(f, rr)));
     } else if !place_king_safely(t, &mut p, false, &[1, 2, 3, 5, 6]) {
         return None;
     }
     let mut keep: Vec<Sq> = vec![1, 2, 3, 5, 6];
+    keep.extend_from_slice(&file_keep);
     // attackers aimed at a chosen first-rank square
     let natt = t.pick(3);
     for _ in 0..natt {
@@ -756,13 +764,15 @@ pub fn gen_root(t: &mut Tape, mix: Mix) -> Option<GenPos> {
             0 => root(t),
             _ => theme_sparse(t),
         },
-        Mix::Tactical => match t.pick(10) {
+        Mix::Tactical => match t.pick(12) {
             0 | 1 => root(t),
             2 | 3 | 4 => theme_multi(t),
             5 => theme_queens(t),
             6 => theme_promo(t),
             7 => theme_pin(t),
             8 => theme_ep(t),
+            9 => theme_castle(t),
+            10 => theme_check(t),
             _ => theme_random(t),
         },
         Mix::General => match t.pick(16) {
